@@ -358,9 +358,24 @@ class SecopClient(ProxyClient):
             if self.io:
                 return
             self._shutdown.clear()
+            # requests left over from the previous connection will never be answered:
+            # release their callers (they get a ConnectionError) instead of forgetting them
+            for oldqueue in self.txq, self.pending:
+                try:
+                    while True:
+                        entry = oldqueue.get(block=False)
+                        if entry:
+                            entry[1].set()
+                except queue.Empty:
+                    pass
+            try:
+                while self.active_requests:
+                    _, (_, event, _) = self.active_requests.popitem()
+                    event.set()
+            except KeyError:
+                pass
             self.txq = queue.Queue(30)
             self.pending = queue.Queue(30)
-            self.active_requests.clear()
             self.cleanup.clear()
             if self.online:
                 self._set_state(True, 'reconnecting')
